@@ -8,7 +8,7 @@ ID = "C04"
 LEVEL = "proof"
 DESIGN_REF = "DESIGN.md §9 C04, §12.C04"
 COQ_TARGETS = ["Properties/C04", "Pins/C04"]
-THEOREMS = [("PdfV.Properties.C04", n) for n in ["C04_ser_spells", "C04_roundtrip", "C04_roundtrip_eof", "C04_integer", "C04_decimal", "C04_name", "C04_string_literal", "C04_string_hex", "C04_indirect_body", "C04_ser_no_panic", "C04_nonvacuous"]]
+THEOREMS = [("PdfV.Properties.C04", n) for n in ["C04_ser_spells", "C04_roundtrip", "C04_roundtrip_eof", "C04_integer", "C04_decimal", "C04_name", "C04_string_literal", "C04_string_hex", "C04_indirect_body", "C04_stream", "C04_ser_no_panic", "C04_nonvacuous"]]
 ANCHORS = ["primitive.rs", "lexer/", "parser/", "file.rs:write_revision"]
 MODES = ["serialize", "ser_parse", "save_value"]
 TRUSTED_BASE = ["coqc 8.16.1 kernel", "gen/extract_syn.py", "Extraction + ExtrOcamlBasic + driver", "pdfh harness",
@@ -170,7 +170,7 @@ def base_file(fmt):
 
 
 def saved_equiv(v):
-    want = CN.parse_canon(canon_impl2(v))
+    want = CN.parse_canon(canon_impl2(v).replace(b"p{", b"s{", 1) if isinstance(v, PStream) else canon_impl2(v))
     def chk(r):
         if r[0] != "OK":
             return "the object written by save cannot be read back: %s %s" % (r[0], r[1])
@@ -194,6 +194,16 @@ def generate(rng, tier):
         yield save_case(v, rng, "saved:" + type(v).__name__)
     for b in BOUNDARY_REALS:
         yield save_case(BReal(b), rng, "saved:boundary-real")
+    # streams with pending data as objects of their own: written by the real writer, re-loaded, data compared
+    for i in range(60 if tier == "quick" else 1500):
+        d = {}
+        for _ in range(rng.randint(0, 3)):
+            d[S.rand_name(rng)] = rand_value(rng, 1)
+        data = rng.choice([b"", b"\n", b"\r\n", b"endstream", b"x\nendstream\nendobj\n"]) if rng.random() < 0.2 else \
+            S.rand_bytes(rng) + bytes(rng.randrange(256) for _ in range(rng.randint(0, 60)))
+        d.pop(Name("Length"), None)
+        d[Name("Length")] = len(data)
+        yield save_case(PStream(d, data), rng, "saved:stream")
     for v in [None, True, False, 0, -1, 2147483647, -2147483648, Name("N"), Name(""), Ref(1, 0), Ref(3, 0), b"", b"(", [], {}]:
         yield save_case(v, rng, "saved:scalar")
     for i in range(n):
